@@ -130,7 +130,7 @@ func (ts TypeSpecifier) parent() TypeSpecifier {
 		return TypeSpecifier{FHIR, "uri"}
 	case "Duration", "MoneyQuantity", "Age", "Count", "Distance", "SimpleQuantity":
 		return TypeSpecifier{FHIR, "Quantity"}
-	case "Timing", "Dosage", "ElementDefinition":
+	case "Timing", "Dosage", "ElementDefinition", "MarketingStatus", "Population", "ProdCharacteristic", "ProductShelfLife", "SubstanceAmount":
 		return TypeSpecifier{FHIR, "BackboneElement"}
 	case "Bundle", "Binary", "Parameters", "DomainResource":
 		return TypeSpecifier{FHIR, "Resource"}
